@@ -17,10 +17,10 @@ CHECKS = {
         ref="DESIGN.md 4/C05"),
     "C09": dict(
         engine="A: CSV store histories on a simulated workspace",
-        technique="deterministic simulation: seeded operation histories (write/overwrite/read/archive/chdir/restart/clock jumps) on a workspace with clock, user and cwd seams, checked against a reference store model",
+        technique="deterministic simulation with fault injection: seeded operation histories (write/overwrite/read/archive/chdir/restart/clock jumps, disk-full during a write via a file-size limit) on a workspace with clock, user and cwd seams, checked against a reference store model",
         category="exploration",
         text="Seeded histories of a simulated analyst process over a real scratch directory, with the clock, user-name and cwd seams owned by the simulator; every read is compared with a dict model of the store. Sampled, not exhaustive.",
-        note="Trusted: pandas, zipfile; the model's notion of float equality at the printed precision. No I/O-error or crash injection (the property promises nothing under them).",
+        note="Trusted: pandas, zipfile; the model's notion of float equality at the printed precision. Disk-full faults (RLIMIT_FSIZE in the run process) hit plain and compressed writes; a faulted write may raise or must read back, the next clean write must read back. No crash injection (the property promises nothing about torn files).",
         ref="DESIGN.md 4/C09"),
     "C12": dict(
         engine="A: operation-sequence machine with reference model",
@@ -31,10 +31,10 @@ CHECKS = {
         ref="DESIGN.md 4/C12"),
     "C13": dict(
         engine="A: grid/catchment persistence histories",
-        technique="deterministic simulation: seeded persistence histories (save/overwrite/load/foreign byte order/clone/clip/dict/restart) on a simulated workspace, refinement-checked against a byte-level grid model",
+        technique="deterministic simulation with fault injection: seeded persistence histories (save/overwrite/load/load into a live grid/foreign byte order/clone/clip/dict/restart, disk-full during a save via a file-size limit, refused loads of short/long/missing files) on a simulated workspace, refinement-checked against a byte-level grid model",
         category="exploration",
         text="Seeded histories of a simulated process saving, overwriting, reloading, cloning, clipping and exporting grids and catchments on a real scratch directory; every load/clone/clip/from_dict is compared with a byte-level model; stale sibling files, restarts and foreign byte order are the injected environment conditions.",
-        note="Trusted: numpy raw I/O, the model's arithmetic for clip cell centres. No torn header/data pair (no atomicity is claimed by the property).",
+        note="Trusted: numpy raw I/O, the model's arithmetic for clip cell centres. Disk-full faults (RLIMIT_FSIZE in the run process) hit header and data writes: a faulted save may raise or must load back, the next clean save must load back. A torn pair left by a failed save is never read through the model (no atomicity is claimed by the property).",
         ref="DESIGN.md 4/C13"),
     "C18": dict(
         engine="C: long-lived session simulator",
